@@ -103,18 +103,25 @@ public:
 private:
     template <typename Split>
     void do_split( blocked_range3d& r, Split& split_obj) {
+        // 0 - pages, 1 - rows, 2 - cols
+        int axis;
         if ( my_pages.size()*double(my_rows.grainsize()) < my_rows.size()*double(my_pages.grainsize()) ) {
-            if ( my_rows.size()*double(my_cols.grainsize()) < my_cols.size()*double(my_rows.grainsize()) ) {
-                my_cols.my_begin = col_range_type::do_split(r.my_cols, split_obj);
-            } else {
-                my_rows.my_begin = row_range_type::do_split(r.my_rows, split_obj);
-            }
+            axis = my_rows.size()*double(my_cols.grainsize()) < my_cols.size()*double(my_rows.grainsize()) ? 2 : 1;
         } else {
-            if ( my_pages.size()*double(my_cols.grainsize()) < my_cols.size()*double(my_pages.grainsize()) ) {
-                my_cols.my_begin = col_range_type::do_split(r.my_cols, split_obj);
-            } else {
-                my_pages.my_begin = page_range_type::do_split(r.my_pages, split_obj);
-            }
+            axis = my_pages.size()*double(my_cols.grainsize()) < my_cols.size()*double(my_pages.grainsize()) ? 2 : 0;
+        }
+        // The products are compared in floating point and can tie for sizes above 2^53:
+        // never pick an axis that is not divisible while another one is.
+        const bool divisible[3] = { my_pages.is_divisible(), my_rows.is_divisible(), my_cols.is_divisible() };
+        if ( !divisible[axis] ) {
+            axis = divisible[0] ? 0 : (divisible[1] ? 1 : 2);
+        }
+        if ( axis == 2 ) {
+            my_cols.my_begin = col_range_type::do_split(r.my_cols, split_obj);
+        } else if ( axis == 1 ) {
+            my_rows.my_begin = row_range_type::do_split(r.my_rows, split_obj);
+        } else {
+            my_pages.my_begin = page_range_type::do_split(r.my_pages, split_obj);
         }
     }
 };
